@@ -217,6 +217,9 @@ def op_resources(cirq, op, qid, keyid):
 
 def trace_terms(cirq, ref_ops, out_ops, same):
     """Identify each output operation with an input operation (k-th equal with k-th equal) and emit both traces."""
+    # operations without qubits and keys (global phases) cannot change what is computed up to global phase: not traced
+    has_res = lambda op: bool(op.qubits) or bool(cirq.measurement_key_objs(op)) or bool(cirq.control_keys(op))
+    ref_ops, out_ops = [op for op in ref_ops if has_res(op)], [op for op in out_ops if has_res(op)]
     qs = sorted({q for op in list(ref_ops) + list(out_ops) for q in op.qubits})
     qid = {q: i for i, q in enumerate(qs)}
     keyid = opsem.KeyIds()
@@ -940,6 +943,51 @@ def root_cause(cirq, cfg, circuit, out, deep):
     return '+'.join(f)
 
 
+def gauge_sweep_stream(ctx, cirq, mods, checks, case_no):
+    """Every branch of every gauge selector (scripted prng, DFS over its choices) on one target gate between random 1q gates."""
+    import random
+    from ..scripted import ScriptedSeed, NeedBranch
+    t = cirq.transformers
+    gc = t.gauge_compiling
+
+    class GaugeSeed(ScriptedSeed):
+        def __init__(self, script, inner):
+            super().__init__(script)
+            self.inner = inner
+
+        def random(self, size=None):
+            return self.inner.random()
+
+    q0, q1 = cirq.LineQubit.range(2)
+    cases = [('CZGaugeTransformer', t.CZGaugeTransformer, [cirq.CZ]), ('SqrtCZGaugeTransformer', t.SqrtCZGaugeTransformer, [cirq.CZ ** 0.5, cirq.CZ ** -0.5]),
+             ('CPhaseGaugeTransformer', gc.CPhaseGaugeTransformer, [cirq.CZ ** 0.3, cirq.CZ ** -1.7]), ('SpinInversionGaugeTransformer', t.SpinInversionGaugeTransformer, [cirq.ZZ ** 0.3, cirq.ZZ]),
+             ('ISWAPGaugeTransformer', t.ISWAPGaugeTransformer, [cirq.ISWAP]), ('SqrtISWAPGaugeTransformer', t.SqrtISWAPGaugeTransformer, [cirq.SQRT_ISWAP]),
+             ('SYCGaugeTransformer', mods['cirq_google'].transformers.SYCGaugeTransformer, [mods['cirq_google'].SYC])]
+    for name, tr, targets in cases:
+        for g in targets:
+            for orient in ((q0, q1), (q1, q0)):
+                rng = random.Random(f'{ctx.seed}:sweep:{name}:{g}:{orient}')
+                c = cirq.Circuit(cirq.Moment(rand_1q(cirq, rng).on(q) for q in (q0, q1)), cirq.Moment(g.on(*orient)), cirq.Moment(rand_1q(cirq, rng).on(q) for q in (q0, q1)))
+                runs, stack, inner_seed = [], [[]], rng.random()
+                while stack and len(runs) < 80:
+                    script = stack.pop()
+                    seed = GaugeSeed(script, random.Random(inner_seed))
+                    try:
+                        runs.append((seed.prob, tr(c, prng=seed), script))
+                    except NeedBranch as nb:
+                        stack.extend(script + [k] for k in reversed(range(len(nb.probs))) if nb.probs[k] > 0)
+                for prob, out, script in runs:
+                    case_no += 1
+                    ops_in, ops_out = flatten_ops(cirq, c), flatten_ops(cirq, out)
+                    expr, kind = semantic_check(cirq, rng, ops_in, ops_out, 'same')
+                    cfg = Cfg(name, 'every gauge', None, 'semantic')
+                    rep = dict(config=cfg.id, deep=False, ignore=False, circuit=repr(c), diagram=str(c), circuit_kind='gauge-sweep', gauge_script=script,
+                               output=repr(out), output_diagram=str(out), root_cause=f'gauge-branch:{script}')
+                    checks.append(dict(case=case_no, what='semantics', stream=f'{cfg.id}:{kind}', expr=expr, cfg=cfg, rep=rep, desc=f'{name} gauge branch {script} on {g} {orient}'))
+                    ctx.count(cfg.id, [name, repr(g), str(orient), script], True, sample=dict(transformer=cfg.id, target=repr(g), gauge_script=script, output=str(out)[:300]))
+    return case_no
+
+
 def run(ctx):
     mods = env.import_cirq(('cirq_google',))
     cirq = mods['cirq']
@@ -972,6 +1020,7 @@ def run(ctx):
             ignore = cfg.ignore and ctx.rng.random() < 0.5
             case_no += 1
             run_case(ctx, cirq, cfg, circuit, kind, deep, ignore, checks, case_no)
+    case_no = gauge_sweep_stream(ctx, cirq, mods, checks, case_no)
     failed = evaluate(ctx, checks)
     report(ctx, checks, failed)
     ctx.cov['programs'] = case_no
